@@ -142,6 +142,24 @@ func (br *xmpReader) readAttribute(tag *Tag) (attr Attribute, err error) {
 		err = errors.Wrap(err, "Attr (discard)")
 		return
 	}
+	// white space may separate the name from the '='
+	for {
+		if buf, err = br.Peek(maxTagHeaderSize); err != nil {
+			err = errors.Wrap(err, "Attr")
+			return
+		}
+		n := 0
+		for n < len(buf) && isSpace(buf[n]) {
+			n++
+		}
+		if n == 0 {
+			break
+		}
+		if _, err = br.Discard(n); err != nil {
+			err = errors.Wrap(err, "Attr (discard)")
+			return
+		}
+	}
 
 	// Attribute Value
 	attr.val, err = br.readAttrValue(tag)
@@ -152,7 +170,7 @@ func (br *xmpReader) readAttribute(tag *Tag) (attr Attribute, err error) {
 // readAttrValue reada an Attributes value from the Tag.
 // Needs improvement for performance
 func (br *xmpReader) readAttrValue(tag *Tag) (buf []byte, err error) {
-	d, i := 0, 2
+	d, i := 0, 0
 	s := maxTagValueSize / 2
 	for {
 		if buf, err = br.Peek(s); err != nil {
@@ -160,8 +178,14 @@ func (br *xmpReader) readAttrValue(tag *Tag) (buf []byte, err error) {
 			return
 		}
 
-		if buf[0] == '=' && (buf[1] == '"' || buf[1] == '\'') {
-			delim := buf[1]
+		// white space may follow the '=': the opening quote is the first other byte
+		o := 1
+		for o < len(buf) && isSpace(buf[o]) {
+			o++
+		}
+		if buf[0] == '=' && o < len(buf) && (buf[o] == '"' || buf[o] == '\'') {
+			delim := buf[o]
+			i = o + 1
 			// the two bytes after the closing quote decide how the tag goes on: they must be inside the window too
 			if b := bytes.IndexByte(buf[i:], delim); b >= 0 && i+b+2 < len(buf) {
 				i += b
@@ -177,7 +201,7 @@ func (br *xmpReader) readAttrValue(tag *Tag) (buf []byte, err error) {
 				if _, err = br.Discard(d); err != nil {
 					err = errors.Wrap(err, "Attr Value (discard)")
 				}
-				return buf[2:i], err
+				return buf[o+1 : i], err
 			}
 		}
 		s += maxTagValueSize
